@@ -55,7 +55,61 @@ import (
 
 var vfChecks = map[string]*vfeng.Check{}
 
-func vfRegister(c *vfeng.Check) { vfChecks[c.ID] = c }
+func vfRegister(c *vfeng.Check) {
+	vfChecks[c.ID] = c
+	// checks whose property quantifies over configurations also verify, through a
+	// real configuration file and the real loader, that the options they depend on
+	// are in force under their documented keys (cfgload.go)
+	has := false
+	for _, o := range vfConfigOptions() {
+		if o.Prop == c.ID {
+			has = true
+		}
+	}
+	if !has || c.Property != "" {
+		return
+	}
+	run, replay, id := c.Run, c.Replay, c.ID
+	c.Rule = "configuration options this property ranges over, written under their documented keys into a generated configuration file and loaded with the real loadVerifyConfigFile, must show in the loaded state; " + c.Rule
+	c.Run = func(cx *vfeng.Ctx) {
+		if cx.Shard == 0 {
+			vfConfigKeysCheck(cx, id)
+		}
+		run(cx)
+	}
+	c.Replay = func(cx *vfeng.Ctx, raw json.RawMessage) (bool, string) {
+		var p struct {
+			Part string `json:"part"`
+		}
+		if json.Unmarshal(raw, &p) == nil && p.Part == "config-keys" {
+			_, wrong, err := vfConfigInForce(id)
+			if err != nil {
+				return false, err.Error()
+			}
+			if len(wrong) > 0 {
+				return true, id + "|configuration-key-not-in-force :: " + strings.Join(wrong, "; ")
+			}
+			return false, "all configuration keys in force"
+		}
+		return replay(cx, raw)
+	}
+}
+
+func vfConfigKeysCheck(c *vfeng.Ctx, prop string) {
+	n, wrong, err := vfConfigInForce(prop)
+	if err != nil {
+		c.Res.HarnessErr = "loading a generated configuration failed: " + err.Error()
+		return
+	}
+	c.Eval(int64(n))
+	for _, wmsg := range wrong {
+		key := strings.SplitN(wmsg, ":", 2)[0]
+		c.Violate(prop+"|configuration-key-not-in-force|loadVerifyConfigFile|"+key, wmsg, map[string]string{"part": "config-keys", "key": key})
+	}
+	if len(wrong) == 0 {
+		c.Class(fmt.Sprintf("config-keys|%d options in force", n), map[string]string{"part": "config-keys"})
+	}
+}
 
 func TestMain(m *testing.M) {
 	if os.Getenv("KMV_CHECK") != "" {
@@ -268,8 +322,16 @@ func vfSharedData() string {
 		vfMust(err)
 		tp := filepath.Join(d, "customization_data", "templates")
 		vfMust(os.MkdirAll(tp, 0o755))
-		for _, n := range []string{"footer_extra", "header_extra", "login_extra"} {
-			vfMust(os.WriteFile(filepath.Join(tp, n+".tmpl"), []byte(fmt.Sprintf("{{define \"%s\"}}{{end}}", n)), 0o644))
+		// the customisation templates the repository ships (the login page needs
+		// login_pre_password and login_form_footer); fall back to empty definitions
+		stub := map[string]string{"footer_extra": `{{define "footer_extra"}}{{end}}`, "header_extra": `{{define "header_extra"}}{{end}}`,
+			"login_extra": `{{define "login_pre_password"}}{{end}}{{define "login_form_footer"}}{{end}}`}
+		for n, def := range stub {
+			src := filepath.Join(os.Getenv("KMV_REPO"), "cmd", "keymasterd", "customization_data", "templates", n+".tmpl")
+			if b, err := os.ReadFile(src); err == nil && os.Getenv("KMV_REPO") != "" {
+				def = string(b)
+			}
+			vfMust(os.WriteFile(filepath.Join(tp, n+".tmpl"), []byte(def), 0o644))
 		}
 		vfMust(os.MkdirAll(filepath.Join(d, "static_files"), 0o755))
 		vfMust(os.WriteFile(filepath.Join(d, "static_files", "favicon.ico"), []byte("ico"), 0o644))
